@@ -85,6 +85,11 @@ theorem lexer_codes_in_catalogue :
 /-- Catalogue keys are unique, so "the catalogue text of a code" is well defined. -/
 theorem catalogue_keys_nodup : (Generated.catalogue.map Prod.fst).Nodup := by decide +kernel
 
+/-- No two codes share a text (a diagnostic's text identifies its code), except the one pair
+the published catalogue has always shared. -/
+theorem catalogue_texts_distinct :
+    ((Generated.catalogue.filter (fun kv => kv.1 != "TAB_REPLACE_SPACE")).map Prod.snd).Nodup := by decide +kernel
+
 /-- Every diagnostic the lexer produces carries at least one highlight, for every input
 (needed: the comparator is only a strict weak order on such diagnostics, and both
 formatters read `highlights[0]`). -/
